@@ -91,6 +91,15 @@ fn dep_strategy() -> impl Strategy<Value = Dep> {
     ]
 }
 
+/// packaged location of id `i` in this case: the same id is packaged to different places in different cases (another
+/// package directory, profile or target), as it is between two builds of one libcnb-test process
+fn loc_path(c: &Case, i: usize) -> String {
+    match hash_of(&(c.src.clone(), c.bp_uri.clone(), c.deps.len())) % 3 {
+        0 => PATHS[i].to_string(),
+        n => format!("/pkg-v{n}{}", PATHS[i]),
+    }
+}
+
 fn case_strategy() -> impl Strategy<Value = Case> {
     (
         proptest::collection::vec("[a-z][a-z0-9._~-]{0,6}", 0..4),
@@ -205,7 +214,7 @@ fn check(ctx: &Ctx, env: &Env, c: &Case) -> Check {
     let mut map: BTreeMap<BuildpackId, PathBuf> = BTreeMap::new();
     for (i, id) in IDS.iter().enumerate() {
         if Some(i) != missing_id && (!c.minimal_map || referenced.contains(&i)) {
-            map.insert(id.parse().unwrap(), PathBuf::from(PATHS[i]));
+            map.insert(id.parse().unwrap(), PathBuf::from(loc_path(c, i)));
         }
     }
     if map.is_empty() && missing_id.is_some() {
@@ -264,7 +273,7 @@ fn check(ctx: &Ctx, env: &Env, c: &Case) -> Check {
                 for (i, (d, o)) in c.deps.iter().zip(deps.iter()).enumerate() {
                     let got = o.get("uri").and_then(TV::as_str).unwrap_or("<none>");
                     let want = match d {
-                        Dep::Libcnb(k) => PATHS[*k].to_string(),
+                        Dep::Libcnb(k) => loc_path(c, *k),
                         Dep::Rel(r) => ref_normalise(&base, r),
                         Dep::Abs(s) | Dep::Other(s) => s.clone(),
                     };
@@ -282,6 +291,26 @@ fn check(ctx: &Ctx, env: &Env, c: &Case) -> Check {
                 }
                 // re-parses with libcnb
                 ensure!(toml::from_str::<PackageDescriptor>(&out_text).is_ok(), "C14:output-does-not-reparse", "{out_text}");
+                // the SAME composite packaged again by the same process, its dependencies now being packaged elsewhere (what
+                // two builds of one libcnb-test process do): the second descriptor names the new locations
+                if c.deps.iter().any(|d| matches!(d, Dep::Libcnb(_))) && hash_of(c) % 3 == 0 {
+                    ctx.class("packaged-twice-with-moved-dependencies");
+                    let map2: BTreeMap<BuildpackId, PathBuf> = map.iter().map(|(k, v)| (k.clone(), PathBuf::from(format!("/second-run{}", v.display())))).collect();
+                    let dest2 = case_root.join("dest-second");
+                    std::fs::create_dir_all(&dest2).unwrap();
+                    package_composite_buildpack(&given_dir, &dest2, &map2).map_err(|e| Fail::new("C14:packaging-failed", format!("second packaging: {e}")))?;
+                    let text2 = std::fs::read_to_string(dest2.join("package.toml")).map_err(|e| Fail::new("C14:no-package-toml", e.to_string()))?;
+                    let tv2 = env.reader.borrow_mut().read(&text2).map_err(|e| Fail::new("C14:output-not-valid-toml", format!("{e}: {text2}")))?;
+                    let deps2 = tv2.get("dependencies").and_then(TV::as_array).unwrap_or(&empty);
+                    ensure!(deps2.len() == c.deps.len(), "C14:dependency-count-changed", "second packaging: {} dependencies out, {} in", deps2.len(), c.deps.len());
+                    for (i, (d, o)) in c.deps.iter().zip(deps2.iter()).enumerate() {
+                        if let Dep::Libcnb(k) = d {
+                            let got = o.get("uri").and_then(TV::as_str).unwrap_or("<none>");
+                            let want = format!("/second-run{}", loc_path(c, *k));
+                            ensure!(got == want, "C14:libcnb-dependency-wrong-location", "second packaging, dependency #{i} {:?}: got {got:?} want {want:?}", dep_text(d));
+                        }
+                    }
+                }
                 Ok(())
             }
         }
@@ -291,7 +320,7 @@ fn check(ctx: &Ctx, env: &Env, c: &Case) -> Check {
 }
 
 pub fn run(ctx: &Ctx) {
-    ctx.set_rule("package.toml files with 0..8 dependencies mixing libcnb:<id> (7 ids incl. pairs that differ only in letter case), relative paths from segments {name, ., .., ...} with redundant/trailing separators (also empty, climbing above the root), absolute paths (also with ..), docker/https/http/urn/file URIs with query+fragment, in any order and multiplicity; buildpack uri '.', './sub/dir' or '../sibling'; platform omitted/linux/windows; id->path map complete or missing exactly one referenced id; source directory at 0..3 generated URI-safe path segments below the scratch root, handed over normalised or spelled with a `..` component; driven through package_composite_buildpack, output decoded by Python tomllib. Oracle: same count and order, position-wise expected string (map[id] / own lexical normalisation / verbatim), uri+platform preserved, re-parses; missing id => Err. Non-trivial: >=3 dependencies of >=3 kinds with a relative path containing '..'; distinct = hash of the case.");
+    ctx.set_rule("package.toml files with 0..8 dependencies mixing libcnb:<id> (7 ids incl. pairs that differ only in letter case), relative paths from segments {name, ., .., ...} with redundant/trailing separators (also empty, climbing above the root), absolute paths (also with ..), docker/https/http/urn/file URIs with query+fragment, in any order and multiplicity; buildpack uri '.', './sub/dir' or '../sibling'; platform omitted/linux/windows; id->path map complete or missing exactly one referenced id, the locations differing between cases (one process packages the same ids to different places); source directory at 0..3 generated URI-safe path segments below the scratch root, handed over normalised or spelled with a `..` component; driven through package_composite_buildpack (every third case with a libcnb: dependency a second time in the same process with all locations moved), output decoded by Python tomllib. Oracle: same count and order, position-wise expected string (map[id] / own lexical normalisation / verbatim), uri+platform preserved, re-parses; missing id => Err. Non-trivial: >=3 dependencies of >=3 kinds with a relative path containing '..'; distinct = hash of the case.");
     ctx.assume("URI spellings are canonical (lower-case scheme/host, unreserved path characters) so that 'verbatim' is checked on strings the URI library does not re-spell");
     let env = Env { scratch: Scratch::new("c14"), reader: RefCell::new(TomlReader::new()) };
     for (_p, v) in ctx.regress_files() {
